@@ -53,6 +53,15 @@ def delete_side_case():
     return spec, muts, [('default', 'other', 'default'), ('other', 'default', 'other'), ('default', 'other', 'other')]
 
 
+def fk_enforced(alias):
+    """does the process's connection to this database still enforce foreign keys?  (part of the state of "the other
+    database" as this process sees it: with enforcement off it accepts rows that violate its constraints)"""
+    from django.db import connections
+    with connections[alias].cursor() as cur:
+        cur.execute('PRAGMA foreign_keys')
+        return cur.fetchone()[0]
+
+
 def evolutions_of(muts, sql_for=None):
     evs = [{'label': 'e1', 'mutations': [sigs.real_mutation(m) for m in muts]}]
     if sql_for:
@@ -165,7 +174,12 @@ def run(ctx):
                 installed = evorig.install_models(spec)
                 ok = True
                 for alias in ('default', 'other'):
+                    elsewhere = 'other' if alias == 'default' else 'default'
+                    fk0 = fk_enforced(elsewhere)
                     r = evorig.run_evolver(alias)
+                    if fk_enforced(elsewhere) != fk0:
+                        ctx.fail(None, 'creating the models on %s switched foreign-key enforcement of the connection to %s '
+                                 'from %s to %s' % (alias, elsewhere, fk0, fk_enforced(elsewhere)), rep)
                     if r[0] != 'ok':
                         ctx.fail(None, 'creating the models on %s fails: %s' % (alias, str(r[1])[:150]), rep)
                         ok = False
@@ -200,7 +214,11 @@ def run(ctx):
                 for alias, other in (('default', 'other'), ('other', 'default')):
                     before_other = evorig.snapshot(other)
                     before_mine = evorig.snapshot(alias)
+                    fk0 = fk_enforced(other)
                     r = evorig.run_evolver(alias)
+                    if fk_enforced(other) != fk0:
+                        ctx.fail(None, 'evolving %s switched foreign-key enforcement of the connection to %s from %s to %s'
+                                 % (alias, other, fk0, fk_enforced(other)), rep)
                     after_other = evorig.snapshot(other)
                     after_mine = evorig.snapshot(alias)
                     if after_other != before_other:
